@@ -215,10 +215,16 @@ static err_t call_derPrefix(fc_ctx* c)
 	memcpy(cut, full, k);
 	r[0] = derTLDec(&tag, &len, cut, k);
 	if (r[0] != SIZE_MAX && (r[0] > k || tag != (u32)c->n[0] || len != c->n[1]))
-		return ERR_BAD_FORMAT;   /* a TL pair that is not the one of the code */
+	{
+		c->claim = "derTLDec reports a TL pair for a proper prefix of a code that is not the pair of the code (more octets than it was given, or a tag/length it never wrote)";
+		return ERR_BAD_FORMAT;
+	}
 	r[1] = derDec(&tag, &val, &len, cut, k);
 	if (r[1] != SIZE_MAX || derIsValid(cut, k))
-		return ERR_BAD_FORMAT;   /* a proper prefix is not a code */
+	{
+		c->claim = "derDec accepts a proper prefix of a code: the value it reports extends past the caller's buffer";
+		return ERR_BAD_FORMAT;
+	}
 	/* a length so large that "TL octets + length" wraps around: 04 88 FF FF FF FF FF FF FF Fx */
 	{
 		octet wr[32];
@@ -231,7 +237,10 @@ static err_t call_derPrefix(fc_ctx* c)
 			wr[2 + i] = (octet)(big >> (56 - 8 * i));
 		tag = 0xEEEEEEEE, len = (size_t)-3, val = 0;
 		if (big != SIZE_MAX && (derDec(&tag, &val, &len, wr, cnt) != SIZE_MAX || derIsValid(wr, cnt)))
-			return ERR_BAD_FORMAT;   /* a value of almost 2^64 octets inside a code of a few octets */
+		{
+			c->claim = "derDec accepts a length of almost 2^64 octets inside a code of a few octets: value pointer and length lie outside the caller's buffer";
+			return ERR_BAD_FORMAT;
+		}
 	}
 	/* long-form tag whose first continuation octet carries no bits (5F 80 .., 7F 00 ..): not DER */
 	if (c->n[0] > 0xFF && c->n[2] >= 3)
@@ -244,7 +253,10 @@ static err_t call_derPrefix(fc_ctx* c)
 		r[3] = (size_t)derIsValid(red, c->n[2]);
 		red[1] = keep;
 		if (r[2] != SIZE_MAX || r[3])
+		{
+			c->claim = "derTLDec/derIsValid accept a long-form tag with an empty first continuation octet; the tag is reported without having been written";
 			return ERR_BAD_FORMAT;
+		}
 	}
 	return ERR_OK;
 }
